@@ -446,7 +446,9 @@ func decodeKeyByBitmapUint8Stream(d *structDecoder, s *Stream) (*structFieldSet,
 					if err != nil {
 						return nil, "", err
 					}
-					cursor = s.cursor
+					// the helper may have refilled (and moved) the buffer; it leaves the
+					// cursor on the last character of the escape sequence
+					_, cursor, p = s.stat()
 					for _, c := range chars {
 						curBit &= bitmap[keyIdx][largeToSmallTable[c]]
 						if curBit == 0 {
@@ -533,7 +535,9 @@ func decodeKeyByBitmapUint16Stream(d *structDecoder, s *Stream) (*structFieldSet
 					if err != nil {
 						return nil, "", err
 					}
-					cursor = s.cursor
+					// the helper may have refilled (and moved) the buffer; it leaves the
+					// cursor on the last character of the escape sequence
+					_, cursor, p = s.stat()
 					for _, c := range chars {
 						curBit &= bitmap[keyIdx][largeToSmallTable[c]]
 						if curBit == 0 {
@@ -563,7 +567,7 @@ func decodeKeyCharByUnicodeRuneStream(s *Stream) ([]byte, error) {
 	const defaultOffset = 4
 	const surrogateOffset = 6
 
-	if s.cursor+defaultOffset >= s.length {
+	for s.cursor+defaultOffset >= s.length {
 		if !s.read() {
 			return nil, errors.ErrInvalidCharacter(s.char(), "escaped unicode char", s.totalOffset())
 		}
@@ -572,8 +576,10 @@ func decodeKeyCharByUnicodeRuneStream(s *Stream) ([]byte, error) {
 	r := unicodeToRune(s.buf[s.cursor : s.cursor+defaultOffset])
 	if utf16.IsSurrogate(r) {
 		s.cursor += defaultOffset
-		if s.cursor+surrogateOffset >= s.length {
-			s.read()
+		for s.cursor+surrogateOffset >= s.length {
+			if !s.read() {
+				break
+			}
 		}
 		if s.cursor+surrogateOffset >= s.length || s.buf[s.cursor] != '\\' || s.buf[s.cursor+1] != 'u' {
 			s.cursor += defaultOffset - 1
@@ -590,9 +596,10 @@ func decodeKeyCharByUnicodeRuneStream(s *Stream) ([]byte, error) {
 }
 
 func decodeKeyCharByEscapeCharStream(s *Stream) ([]byte, error) {
-	c := s.buf[s.cursor]
-	s.cursor++
 RETRY:
+	// the cursor stays on the escaped character (the callers step over it), as it
+	// stays on the last hexadecimal digit of a \uXXXX escape
+	c := s.buf[s.cursor]
 	switch c {
 	case '"':
 		return []byte{'"'}, nil
@@ -611,6 +618,7 @@ RETRY:
 	case 't':
 		return []byte{'\t'}, nil
 	case 'u':
+		s.cursor++
 		return decodeKeyCharByUnicodeRuneStream(s)
 	case nul:
 		if !s.read() {
@@ -640,7 +648,8 @@ func decodeKeyNotFoundStream(s *Stream, start int64) (*structFieldSet, string, e
 				if !s.read() {
 					return nil, "", errors.ErrUnexpectedEndOfJSON("string", s.totalOffset())
 				}
-				buf, cursor, p = s.statForRetry()
+				// the escaped character is at the cursor now: it is stepped over, not examined
+				buf, cursor, p = s.stat()
 			}
 		case nul:
 			s.cursor = cursor
